@@ -13,11 +13,15 @@ sources upgraded to development-colo (ConvertMetaToColo).
 to_tree, to_checkout, to_lightweight_checkout, to_use_shared, to_standalone} (every shorter
 path is a prefix) from a tree with its own repository / a tree in a shared repository, with
 and without pending changes (2a; thorough adds 1.14), a merge history with tags, a master
-branch to bind / refer to.
+branch to bind / refer to; each also with extra revisions in the local repository outside the
+tip's ancestry (and absent from the master): one referenced only by a tag, a dead head, and -
+with pending changes - one that is an uncommitted pending merge of the tree.
 Oracle after every upgrade / transition: branch tip, the testament of every revision (strict
 testaments where the root is versioned on both sides), tags, the working tree's versioned
 entries with file ids, its files on disk, iter_changes against the basis and the parent ids
-are what they were; a refused transition leaves all of that and the layout unchanged; an
+are what they were; every revision that was in a repository reachable from the location is still in one
+(equal testament), no tag that resolved starts to dangle, no pending merge becomes a ghost;
+a refused transition leaves all of that and the layout unchanged; an
 accepted transition yields the requested layout; upgrade() reports no exception and the
 location no longer needs conversion.
 """
@@ -125,7 +129,58 @@ def observe(path, revids, strict):
     with br.lock_read():
         o["tags"] = dict(br.tags.get_tag_dict()) if br.supports_tags() else {}
     o["tree"] = observe_tree(cd, path)
+    # every revision in a repository reachable from the location: the branch's repository, the
+    # location's own / containing one, and the shared one above it
+    revs = {}
+    for r in reachable_repositories(cd, br):
+        with r.lock_read():
+            for rid in r.all_revision_ids():
+                if rid not in revs:
+                    revs[rid] = mw.testament(r, rid, strict=False)
+    o["repo_revs"] = revs
+    with repo.lock_read():
+        present = repo.has_revisions(list(o["tags"].values()))
+        o["dangling_tags"] = sorted(t for t, rid in o["tags"].items() if rid not in present)
+        parents = o["tree"]["parents"] if o["tree"] else []
+        have = repo.has_revisions(parents)
+        o["ghost_parents"] = [p for p in parents if p not in have]
     return o
+
+
+def reachable_repositories(cd, br):
+    from breezy import errors
+    from breezy.controldir import ControlDir
+    out = [br.repository]
+    seen = {br.repository.user_url}
+    for find in (cd.find_repository,
+                 lambda: ControlDir.open_containing_from_transport(cd.root_transport.clone(".."))[0].find_repository()):
+        try:
+            r = find()
+        except (errors.NoRepositoryPresent, errors.NotBranchError):
+            continue
+        if r.user_url not in seen:
+            seen.add(r.user_url)
+            out.append(r)
+    return out
+
+
+EXTRA_CLASS = {b"s-merge": "pending-merge-revision", b"s-tag": "tagged-side-revision", b"s-dead": "dead-head"}
+
+
+def lost_diff(before, after):
+    """Oracle additions: nothing that was reachable is gone, no new dangling tag / ghost parent.
+    Returns the list of everything that is wrong."""
+    out = []
+    for rid in sorted(before["repo_revs"]):
+        if after["repo_revs"].get(rid) != before["repo_revs"][rid]:
+            what = "revision-lost:%s" % EXTRA_CLASS.get(rid, "history")
+            if what not in out:
+                out.append(what)
+    if [t for t in after["dangling_tags"] if t not in before["dangling_tags"] and t in before["tags"]]:
+        out.append("tag-left-dangling")
+    if [p for p in after["ghost_parents"] if p not in before["ghost_parents"]]:
+        out.append("pending-merge-became-ghost")
+    return out
 
 
 def observe_tree(cd, path):
@@ -326,10 +381,11 @@ def apply_op(op, path, master):
     r.apply()
 
 
-def reconfigure_case(fmt, start, pending, path_ops, acc):
+def reconfigure_case(fmt, start, pending, path_ops, acc, extras=False):
     from breezy import errors
     base = boot.scratch("c52r")
-    detail = {"format": fmt, "start": start, "pending_changes": pending, "path": list(path_ops)}
+    detail = {"format": fmt, "start": start, "pending_changes": pending, "path": list(path_ops),
+              "extra_revisions": extras}
     try:
         shared = os.path.join(base, "shared")
         os.makedirs(shared)
@@ -350,9 +406,23 @@ def reconfigure_case(fmt, start, pending, path_ops, acc):
         # tag only known to the location (must survive being merged into other branches)
         with b.lock_write():
             b.tags.set_tag("local only", gen.revid(1))
+        if extras:
+            # revisions of the local repository outside the ancestry of the tip (the master has none of
+            # them): one referenced only by a tag, one referenced by nothing, one that becomes a
+            # pending merge of the tree
+            for rid, parent in ((b"s-tag", 0), (b"s-dead", 2), (b"s-merge", 1)):
+                spec = dict(spec_for(RDAG, parent))
+                spec["d/" + rid.decode()] = mw.F(rid + b"-id", b"side revision\n")
+                mw.commit_spec(b, rid, [gen.revid(parent)], spec, timestamp=1_000_000_100.0)
+            with b.lock_write():
+                b.generate_revision_history(tip)
+                b.tags.set_tag("side", b"s-tag")
         tree = b.controldir.create_workingtree()
         if pending:
             make_pending(tree)
+            if extras:
+                with tree.lock_write():
+                    tree.set_parent_ids([tip, b"s-merge"])
         revids = [gen.revid(i) for i in range(len(RDAG))]
         strict = True
         first = observe(loc, revids, strict)
@@ -380,7 +450,7 @@ def reconfigure_case(fmt, start, pending, path_ops, acc):
             acc.trans.add((lay, pending, op, outcome))
             acc.outcomes.add((op, outcome))
             if outcome != "ok":
-                d = first_diff(before, after)
+                d = first_diff(before, after) or (lost_diff(before, after) or [None])[0]
                 if d is None and (before["tree"] is None) != (after["tree"] is None):
                     d = "tree-presence"
                 if d is None and nlay != lay:
@@ -388,15 +458,24 @@ def reconfigure_case(fmt, start, pending, path_ops, acc):
                 if d:
                     acc.violation("reconfigure:%s:refused-%s-but-%s-changed" % (op, outcome, d),
                                   dict(detail, failing_step=k, layout_before=list(lay), layout_after=list(nlay),
-                                       before=_brief(before, d) if d not in ("layout", "tree-presence") else None,
-                                       after=_brief(after, d) if d not in ("layout", "tree-presence") else None))
+                                       before=_brief(before, d) if d in before or d.startswith("tree-") and d != "tree-presence" else None,
+                                       after=_brief(after, d) if d in after or d.startswith("tree-") and d != "tree-presence" else None))
                     return
                 continue
             d = first_diff(first, after)
             if d is None and after["tree"] is None and before["tree"] is not None and before["tree"]["changes"]:
                 d = "pending-changes(tree-destroyed)"
+            if d is None:
+                lost = lost_diff(first, after)
+                for what in lost[1:]:
+                    acc.violation("reconfigure:%s:%s" % (op, what),
+                                  dict(detail, failing_step=k, layout_before=list(lay), layout_after=list(nlay)))
+                if lost:
+                    d = "(%s)" % lost[0]
             if d:
-                acc.violation("reconfigure:%s:%s-not-preserved" % (op, d),
+                sig = ("reconfigure:%s:%s" % (op, d[1:-1])) if d.startswith("(") else \
+                    ("reconfigure:%s:%s-not-preserved" % (op, d))
+                acc.violation(sig,
                               dict(detail, failing_step=k, layout_before=list(lay), layout_after=list(nlay),
                                    before=_brief(first, d) if "(" not in d else None,
                                    after=_brief(after, d) if "(" not in d else None))
@@ -427,13 +506,14 @@ class Acc(par.Acc):
 def _work_reconf(chunk):
     _quiet()
     acc = Acc()
-    for i, fmt, start, pending, ops in chunk:
+    for i, fmt, start, pending, extras, ops in chunk:
         acc.n += 1
         if len(set(ops)) >= 2:
-            acc.nt((fmt, start, pending, ops))
-        reconfigure_case(fmt, start, pending, ops, acc)
+            acc.nt((fmt, start, pending, extras, ops))
+        reconfigure_case(fmt, start, pending, ops, acc, extras=extras)
         if i < 2:
-            acc.sample({"reconfigure": list(ops), "format": fmt, "start": start, "pending_changes": pending})
+            acc.sample({"reconfigure": list(ops), "format": fmt, "start": start, "pending_changes": pending,
+                        "extra_revisions": extras})
     return acc
 
 
@@ -446,8 +526,8 @@ def run(ctx):
     acc_u = par.merge(par.pmap(_work_upgrade, up_items, seed=ctx.seed, chunks_per_job=8))
     L = ctx.q(2, 3)
     rformats = ctx.q(("2a",), ("2a", "1.14"))
-    re_items = [(i, fmt, start, pending, ops) for i, (fmt, start, pending, ops) in
-                enumerate(itertools.product(rformats, ("own-repo", "in-shared-repo"), (True, False),
+    re_items = [(i, fmt, start, pending, extras, ops) for i, (fmt, start, pending, extras, ops) in
+                enumerate(itertools.product(rformats, ("own-repo", "in-shared-repo"), (True, False), (False, True),
                                             itertools.product(OPS, repeat=L)))]
     acc_r = Acc()
     for a in par.pmap(_work_reconf, re_items, seed=ctx.seed, chunks_per_job=8):
@@ -490,7 +570,8 @@ def replay(ctx, data):
     _quiet()
     if "path" in d:
         acc = Acc()
-        reconfigure_case(d["format"], d["start"], d["pending_changes"], tuple(d["path"]), acc)
+        reconfigure_case(d["format"], d["start"], d["pending_changes"], tuple(d["path"]), acc,
+                         extras=d.get("extra_revisions", False))
     else:
         acc = par.Acc()
         upgrade_case(d["format"], tuple(tuple(p) for p in d["dag"]), d["layout"], acc, to=d.get("to", "2a"))
